@@ -61,11 +61,17 @@ inductive Val (K : Type) where
   | vec (l : List K)
 deriving Repr
 
-/-- function table: meaning of named constants, unary and binary functions -/
+/-- function table: meaning of named constants, unary and binary functions, of the step
+function and of comparisons.  Keeping the last two in the table makes `eval` depend on the
+arithmetic of `K` only, so that the same evaluator also runs at "number types" without a
+decidable order - in particular at fields `ι → K` with pointwise operations, where function
+names may denote differential operators (C10) -/
 structure FunTab (K : Type) where
   f0 : String → K
   f1 : String → K → K
   f2 : String → K → K → K
+  heav : K → K → K
+  cmp : Cmp → K → K → K
 
 /-- environment: every symbol has a scalar reading and an indexed reading (a symbol bound to
 a number has the indexed reading 0 and vice versa; binding a name overrides both) -/
@@ -75,7 +81,6 @@ structure Env (K : Type) where
 
 section
 variable {K : Type} [Add K] [Sub K] [Mul K] [Div K] [Neg K] [NatCast K] [IntCast K]
-variable [LT K] [DecidableLT K] [LE K] [DecidableLE K]
 
 def zero : K := ((0:Nat) : K)
 def one : K := ((1:Nat) : K)
@@ -91,6 +96,9 @@ def powInt (x : K) : Int → K
   | .ofNat k => npow x k
   | .negSucc k => one / npow x (k + 1)
 
+section order
+variable [LT K] [DecidableLT K] [LE K] [DecidableLE K]
+
 /-- `numpy.heaviside(x, h)` -/
 def heaviside (x h : K) : K :=
   if x < zero then zero else if zero < x then one else h
@@ -102,6 +110,8 @@ def cmpVal (op : Cmp) (a b : K) : K :=
   | .le => if a ≤ b then one else zero
   | .gt => if b < a then one else zero
   | .ge => if b ≤ a then one else zero
+
+end order
 
 def Val.toSc : Val K → K
   | .sc v => v
@@ -138,9 +148,9 @@ def eval (T : FunTab K) (env : Env K) : Expr → K
   | .powI a n => powInt (eval T env a) n
   | .call1 f a => T.f1 f (eval T env a)
   | .call2 f a b => T.f2 f (eval T env a) (eval T env b)
-  | .heav1 a => heaviside (eval T env a) (ofRat (1/2))
-  | .heav2 a h => heaviside (eval T env a) (eval T env h)
-  | .cmp op a b => cmpVal op (eval T env a) (eval T env b)
+  | .heav1 a => T.heav (eval T env a) (ofRat (1/2))
+  | .heav2 a h => T.heav (eval T env a) (eval T env h)
+  | .cmp op a b => T.cmp op (eval T env a) (eval T env b)
 
 /-- arrays of expressions (`TensorExpression`) -/
 def evalVec (T : FunTab K) (env : Env K) (l : List Expr) : List K := l.map (eval T env)
@@ -151,8 +161,14 @@ def evalMat (T : FunTab K) (env : Env K) (m : List (List Expr)) : List (List K) 
 def evalPoints (T : FunTab K) (e : Expr) (envs : List (Env K)) : List K :=
   envs.map (fun env => eval T env e)
 
-/-- the functions that need only order and ring operations (available at every number type) -/
+section order
+variable [LT K] [DecidableLT K] [LE K] [DecidableLE K]
+
+/-- the functions that need only order and ring operations (available at every ordered number
+type); step function and comparisons have their standard meaning -/
 def algTab : FunTab K where
+  heav := heaviside
+  cmp := cmpVal
   f0 := fun _ => zero
   f1 := fun f x =>
     if f = "abs" ∨ f = "Abs" then (if x < zero then -x else x)
@@ -163,11 +179,14 @@ def algTab : FunTab K where
     else if f = "Min" then (if y < x then y else x)
     else zero
 
+end order
+
+end
+
 /-- names interpreted by `algTab` -/
 def algFun1 (f : String) : Bool := f = "abs" || f = "Abs" || f = "sign"
 def algFun2 (f : String) : Bool := f = "Max" || f = "Min"
 
-end
 
 /-! ### syntax operations (independent of the number type) -/
 
@@ -305,7 +324,6 @@ def checkSignature (sig : List (List String)) (cnames : List String)
 
 section
 variable {K : Type} [Add K] [Sub K] [Mul K] [Div K] [Neg K] [NatCast K] [IntCast K]
-variable [LT K] [DecidableLT K] [LE K] [DecidableLE K]
 
 /-- positional binding (`lambdify(names)` called with `vals`): first match wins -/
 def bindEnv : List String → List (Val K) → Env K → Env K
@@ -341,6 +359,8 @@ structure UDef where
 deriving Repr
 
 def withUser (T : FunTab K) (defs : List UDef) : FunTab K where
+  heav := T.heav
+  cmp := T.cmp
   f0 := T.f0
   f1 := fun f x =>
     match defs.find? (fun d => d.name = f && d.params.length == 1) with
@@ -377,7 +397,7 @@ def rationalFragment (extra : List String) : Expr → Bool
 
 section
 variable {K : Type} [Add K] [Sub K] [Mul K] [Div K] [Neg K] [NatCast K] [IntCast K]
-variable [LT K] [DecidableLT K] [LE K] [DecidableLE K] [DecidableEq K]
+variable [DecidableEq K]
 
 /-- no division by zero and no negative power of zero anywhere (exact number types) -/
 def defined (T : FunTab K) (env : Env K) : Expr → Bool
@@ -396,6 +416,60 @@ def defined (T : FunTab K) (env : Env K) : Expr → Bool
   | .heav1 a => defined T env a
   | .heav2 a h => defined T env a && defined T env h
   | .cmp _ a b => defined T env a && defined T env b
+
+end
+
+/-! ### fields as a number type: pointwise arithmetic on `ι → K`
+
+`eval` only needs the arithmetic of its number type, so it also runs on whole arrays / fields.
+With a pointwise-lifted table this is numpy's elementwise evaluation (C11); with a table whose
+function names denote differential operators it is the semantics of a PDE right-hand side
+(C10). -/
+
+/-- a field: one number per index (cell); wrapped so that the pointwise instances below do not
+compete with other instances on function types -/
+structure Fld (ι K : Type) where
+  val : ι → K
+
+section
+variable {ι K : Type}
+
+instance [Add K] : Add (Fld ι K) := ⟨fun a b => ⟨fun i => a.val i + b.val i⟩⟩
+instance [Sub K] : Sub (Fld ι K) := ⟨fun a b => ⟨fun i => a.val i - b.val i⟩⟩
+instance [Mul K] : Mul (Fld ι K) := ⟨fun a b => ⟨fun i => a.val i * b.val i⟩⟩
+instance [Div K] : Div (Fld ι K) := ⟨fun a b => ⟨fun i => a.val i / b.val i⟩⟩
+instance [Neg K] : Neg (Fld ι K) := ⟨fun a => ⟨fun i => - a.val i⟩⟩
+instance [NatCast K] : NatCast (Fld ι K) := ⟨fun n => ⟨fun _ => (n : K)⟩⟩
+instance [IntCast K] : IntCast (Fld ι K) := ⟨fun n => ⟨fun _ => (n : K)⟩⟩
+
+/-- the constant field -/
+def Fld.const (a : K) : Fld ι K := ⟨fun _ => a⟩
+
+variable [Add K] [Sub K] [Mul K] [Div K] [Neg K] [NatCast K] [IntCast K]
+
+/-- a table of local functions acts on fields point by point -/
+def liftTab (T : FunTab K) : FunTab (Fld ι K) where
+  f0 := fun c => ⟨fun _ => T.f0 c⟩
+  f1 := fun f x => ⟨fun i => T.f1 f (x.val i)⟩
+  f2 := fun f x y => ⟨fun i => T.f2 f (x.val i) (y.val i)⟩
+  heav := fun x h => ⟨fun i => T.heav (x.val i) (h.val i)⟩
+  cmp := fun op x y => ⟨fun i => T.cmp op (x.val i) (y.val i)⟩
+
+/-- one environment per point, seen as an environment of fields -/
+def liftEnv (envs : ι → Env K) : Env (Fld ι K) where
+  sc := fun s => ⟨fun i => (envs i).sc s⟩
+  ix := fun s k => ⟨fun i => (envs i).ix s k⟩
+
+/-- field semantics with differential operators: the names selected by `isOp1` / `isOp2`
+denote maps on whole fields (non-local), every other name is a local function applied point
+by point -/
+def opTab (T : FunTab K) (isOp1 : String → Bool) (op1 : String → (ι → K) → (ι → K))
+    (isOp2 : String → Bool) (op2 : String → (ι → K) → (ι → K) → (ι → K)) : FunTab (Fld ι K) where
+  f0 := (liftTab T).f0
+  f1 := fun f x => if isOp1 f then ⟨op1 f x.val⟩ else (liftTab T).f1 f x
+  f2 := fun f x y => if isOp2 f then ⟨op2 f x.val y.val⟩ else (liftTab T).f2 f x y
+  heav := (liftTab T).heav
+  cmp := (liftTab T).cmp
 
 end
 
